@@ -1,7 +1,7 @@
 (* C19 — what the GENERATED scripts (coq/gen/Lua_lock.v, Lua_del.v) compute, proved against
    whatever lockscript.lua / delscript.lua say in the tree today. *)
-From Coq Require Import List ZArith String Bool Lia.
-From GZ Require Import Lib.RedisStore Lib.RedisStoreFacts.
+From Coq Require Import List ZArith String Bool Lia ZifyBool.
+From GZ Require Import Lib.RedisStore Lib.RedisStoreFacts Lib.LuaExec.
 From GZgen Require Lua_lock Lua_del C19Consts.
 Import ListNotations.
 Open Scope Z_scope.
@@ -14,7 +14,27 @@ Proof. split; reflexivity. Qed.
 Lemma id_length_today : 16 <= C19Consts.gen_randomLen.
 Proof. discriminate. Qed.
 
+(* The two script lemmas are proved by SYMBOLIC EXECUTION of whatever the generated scripts are today
+   (Lib/LuaExec.v); nothing in the proofs depends on the text of the scripts (locals for the holder / key /
+   id, exchanged operands of == or ~=, exchanged branches, early returns, lower-case commands ... are
+   re-proved as they are: translate/neutral/*.lua, `python3 translate/neutraltest.py`). *)
+
 (* lockscript.lua: refresh when the caller's id is stored, otherwise SET NX; always PX px *)
+Definition lock_script_meets (script : list lval -> list lval -> M lval) : Prop :=
+  forall st key id px,
+  eval script [key] [BStr id; BInt px] st =
+  if px <=? 0 then (RErr EExpire, st) else
+  let taken := store_put st key (mkEntry (BStr id) (Some (rnow st + px))) in
+  match lookup st key with
+  | None => (RStatus "OK", taken)
+  | Some e => if bulk_eqb (evalue e) (BStr id) then (RBulk (BStr "OK"), taken) else (RNil, st)
+  end.
+
+Ltac lock_script_tac := intros st key id px; lua_exec; lua_finish.
+
+Lemma lock_script_today : lock_script_meets Lua_lock.script.
+Proof. lock_script_tac. Qed.
+
 Lemma lock_script_spec st key id px :
   eval Lua_lock.script [key] [BStr id; BInt px] st =
   if px <=? 0 then (RErr EExpire, st) else
@@ -23,26 +43,26 @@ Lemma lock_script_spec st key id px :
   | None => (RStatus "OK", taken)
   | Some e => if bulk_eqb (evalue e) (BStr id) then (RBulk (BStr "OK"), taken) else (RNil, st)
   end.
-Proof.
-  unfold eval, Lua_lock.script. index_simp. unfold bind, redis_call, ret. cbn -[bulk_eqb].
-  destruct (lookup st key) as [e|] eqn:L; cbn -[bulk_eqb].
-  - rewrite ?(bulk_eqb_sym (BStr id) (evalue e)).      (* either operand order of == *)
-    destruct (bulk_eqb (evalue e) (BStr id)) eqn:E; cbn -[bulk_eqb]; rewrite ?L;
-      destruct (px <=? 0); cbn; reflexivity.
-  - rewrite ?L. destruct (px <=? 0); cbn; reflexivity.
-Qed.
+Proof. exact (lock_script_today st key id px). Qed.
 
 (* delscript.lua: DEL only when the caller's id is stored *)
+Definition del_script_meets (script : list lval -> list lval -> M lval) : Prop :=
+  forall st key id,
+  eval script [key] [BStr id] st =
+  match lookup st key with
+  | Some e => if bulk_eqb (evalue e) (BStr id) then (RInt 1, store_del st key) else (RInt 0, st)
+  | None => (RInt 0, st)
+  end.
+
+Ltac del_script_tac := intros st key id; lua_exec; lua_finish.
+
+Lemma del_script_today : del_script_meets Lua_del.script.
+Proof. del_script_tac. Qed.
+
 Lemma del_script_spec st key id :
   eval Lua_del.script [key] [BStr id] st =
   match lookup st key with
   | Some e => if bulk_eqb (evalue e) (BStr id) then (RInt 1, store_del st key) else (RInt 0, st)
   | None => (RInt 0, st)
   end.
-Proof.
-  unfold eval, Lua_del.script. index_simp. unfold bind, redis_call, ret. cbn -[bulk_eqb].
-  destruct (lookup st key) as [e|] eqn:L; cbn -[bulk_eqb].
-  - rewrite ?(bulk_eqb_sym (BStr id) (evalue e)).
-    destruct (bulk_eqb (evalue e) (BStr id)) eqn:E; cbn -[bulk_eqb]; rewrite ?L; reflexivity.
-  - reflexivity.
-Qed.
+Proof. exact (del_script_today st key id). Qed.
